@@ -40,6 +40,7 @@ RowAddSem(A, src, dst) == RowAddOffsetSem(A, dst, src, 0)
 RowClearOffsetSem(A, row, off) == SetRow(A, row, {c \in A.r[row] : c < off})
 \* bit ranges: n bits of row x starting at column y; values are sets of bit positions 0..n-1
 XorBitsSem(A, x, y, n, bits) == SetRow(A, x, Xor(A.r[x], {y + b : b \in {v \in bits : v < n}}))
+AndBitsSem(A, x, y, n, bits) == SetRow(A, x, {c \in A.r[x] : c < y \/ c >= y + n \/ (c - y) \in bits})
 ClearBitsSem(A, x, y, n) == SetRow(A, x, {c \in A.r[x] : c < y \/ c >= y + n})
 ReadBitsSem(A, x, y, n) == {c - y : c \in {v \in A.r[x] : v >= y /\ v < y + n}}
 WriteBitSem(A, x, y, v) == SetRow(A, x, IF v = 1 THEN A.r[x] \cup {y} ELSE A.r[x] \ {y})
